@@ -12,6 +12,7 @@ import (
 	"github.com/WICG/webpackage/go/signedexchange"
 	"github.com/WICG/webpackage/go/zz_verif/rmice"
 	"github.com/WICG/webpackage/go/zz_verif/rsxg"
+	"io"
 	"log"
 	"math"
 	"net/http"
@@ -186,6 +187,48 @@ var nCase int
 
 var sharedSigner = &signedexchange.Signer{}
 
+// storable is the reference's answer to "may a shared cache store this b3 response" (the part of expect() that
+// Exchange.IsCacheable answers on its own).
+func storable(c *policyCase) bool {
+	cc, _ := getCI(c.respHeaders, "cache-control")
+	d := directives(cc)
+	_, hasExpires := getCI(c.respHeaders, "expires")
+	return http.StatusText(c.status) != "" && !d["no-store"] && !d["private"] && (hasExpires || d["max-age"] || d["s-maxage"] || defaultCacheable[c.status] || d["public"])
+}
+
+// exportedPredicates asks the exported helpers that Verify is built from (and that other programs call directly, e.g.
+// before signing) the same questions the reference answers for the whole exchange: they must agree one by one.
+func exportedPredicates(r *mon.Run, c *policyCase, e *signedexchange.Exchange, key string, det map[string]any) {
+	anyUncached := false
+	for k := range c.respHeaders {
+		want := has(uncachedResponse, k)
+		anyUncached = anyUncached || want
+		if got := signedexchange.IsUncachedHeader(k); got != want {
+			r.Eval("PREDICATE-DISAGREES")
+			r.Violation(key+":IsUncachedHeader:"+k, fmt.Sprintf("IsUncachedHeader(%q) = %v, the draft's list says %v", k, got, want), det)
+		}
+	}
+	if err := signedexchange.VerifyUncachedHeader(http.Header(c.respHeaders)); (err != nil) != anyUncached {
+		r.Eval("PREDICATE-DISAGREES")
+		r.Violation(key+":VerifyUncachedHeader", fmt.Sprintf("VerifyUncachedHeader = %v on a header set that %s an uncached field (%s)", err, map[bool]string{true: "contains", false: "does not contain"}[anyUncached], c.desc), det)
+	}
+	for k := range c.reqHeaders {
+		if got, want := signedexchange.IsStatefulRequestHeader(k), has(statefulRequest, k); got != want {
+			r.Eval("PREDICATE-DISAGREES")
+			r.Violation(key+":IsStatefulRequestHeader:"+k, fmt.Sprintf("IsStatefulRequestHeader(%q) = %v, the draft's list says %v", k, got, want), det)
+		}
+	}
+	if c.ver == version.Version1b3 {
+		var got bool
+		p, pv := r.Call("IsCacheable/"+c.desc, nil, func() { got = e.IsCacheable(log.New(io.Discard, "", 0)) })
+		if want := storable(c); p || got != want {
+			r.Eval("PREDICATE-DISAGREES")
+			r.Violation(key+":IsCacheable", fmt.Sprintf("IsCacheable = %v (panic: %v), RFC 7234 section 3 as the draft applies it says %v (%s)", got, pv, want, c.desc), det)
+		}
+	}
+	r.Eval("exported-predicates-agree")
+}
+
 func runCase(r *mon.Run, id *gen.Identity, c *policyCase, class string, sampleEvery int) {
 	nCase++
 	want, why := expect(c)
@@ -208,6 +251,7 @@ func runCase(r *mon.Run, id *gen.Identity, c *policyCase, class string, sampleEv
 		}
 		return
 	}
+	exportedPredicates(r, c, e, key, det)
 	if c.integrity != "" {
 		pl, perr := sh.ParseParameterisedList(e.SignatureHeaderValue)
 		if perr != nil || len(pl) != 1 {
